@@ -254,6 +254,22 @@ func c15Sessions(r *mon.Run) []C15Session {
 				{Kind: "cli-pull", Remote: "origin"}, {Kind: "cli-push", Remote: "origin"}}
 			s.Actions = append(s.Actions[:pos], append(ins, s.Actions[pos:]...)...)
 		}
+		// targeted shape (every second session): a push right after the identity was created, while the repository
+		// holds no bug yet - one of the two namespaces has nothing to send; through the CLI and through the library, to the
+		// remote nothing of the host was ever pushed to (every host branch would be new there) and to origin
+		if i%2 == 1 {
+			for k, a := range s.Actions {
+				if a.Kind == "cli-user-new" {
+					ins := []C15Action{{Kind: "cli-push", Remote: "mirror"}, {Kind: "lib-push", Remote: "mirror"}, {Kind: "cli-push", Remote: "origin"}}
+					if k > 0 {
+						// a bug was written before the identity existed in this session: nothing to send is the identity side
+						ins = ins[:1]
+					}
+					s.Actions = append(s.Actions[:k+1], append(ins, s.Actions[k+1:]...)...)
+					break
+				}
+			}
+		}
 		// every session ends with everything exchanged, so that the remote holds git-bug data
 		s.Actions = append(s.Actions, C15Action{Kind: "cli-pull", Remote: "origin"}, C15Action{Kind: "cli-push", Remote: "origin"})
 		out[i] = s
@@ -280,6 +296,7 @@ type c15Sess struct {
 
 	origin   string
 	upstream string
+	mirror   string // a third remote, empty when the session starts: nothing of the host was ever pushed there
 	peer     string
 	home     string
 	env      []string
@@ -396,6 +413,7 @@ func (s *c15Sess) setup() {
 	}
 	g(s.dir, "init", "-q", "--bare", "-b", "main", s.origin)
 	g(s.dir, "init", "-q", "--bare", "-b", "main", s.upstream)
+	g(s.dir, "init", "-q", "--bare", "-b", "main", s.mirror)
 	if c15LayoutFamily(s.sc.Layout) == "separate-git-dir" {
 		g(s.host, "init", "-q", "-b", "main", "--separate-git-dir", filepath.Join(s.root, "sep.git"), ".")
 	} else {
@@ -444,6 +462,7 @@ func (s *c15Sess) setup() {
 	s.write("b.txt", "b3\n")
 	g(h, "commit", "-q", "-am", "three")
 	g(h, "remote", "add", "origin", s.origin)
+	g(h, "remote", "add", "mirror", s.mirror)
 	g(h, "remote", "add", "upstream", s.upstream)
 	g(h, "config", "remote.upstream.fetch", "+refs/heads/*:refs/remotes/upstream/custom/*")
 	g(h, "config", "--add", "remote.upstream.fetch", "+refs/tags/v*:refs/remotes/upstream/tags/v*")
@@ -641,6 +660,7 @@ func (s *c15Sess) snapshot() *c15Snap {
 	}
 	sn.Remotes["origin"], _ = s.refsOf(s.origin)
 	sn.Remotes["upstream"], _ = s.refsOf(s.upstream)
+	sn.Remotes["mirror"], _ = s.refsOf(s.mirror)
 	return sn
 }
 
@@ -1383,6 +1403,7 @@ func (s *c15Sess) validity() {
 	}
 	s.fsck("origin", s.origin)
 	s.fsck("upstream", s.upstream)
+	s.fsck("mirror", s.mirror)
 	s.fsck("peer", s.peer)
 
 	originRefs, _ := s.refsOf(s.origin)
@@ -1501,7 +1522,7 @@ func runC15Session(sc C15Session) (res C15Result) {
 	} else {
 		defer os.RemoveAll(dir)
 	}
-	s := &c15Sess{sc: sc, dir: dir, host: filepath.Join(dir, "host"), origin: filepath.Join(dir, "origin.git"), upstream: filepath.Join(dir, "upstream.git"),
+	s := &c15Sess{sc: sc, dir: dir, host: filepath.Join(dir, "host"), origin: filepath.Join(dir, "origin.git"), upstream: filepath.Join(dir, "upstream.git"), mirror: filepath.Join(dir, "mirror.git"),
 		peer: filepath.Join(dir, "peer"), home: filepath.Join(dir, "home"), bin: filepath.Join(os.Getenv("VERIF_BIN"), "git-bug"), res: &res, w: &world.World{}}
 	s.placeLayout()
 	for _, kv := range os.Environ() {
